@@ -617,6 +617,8 @@ def generate_record(seed, tier, opts):
                     items = []
                     for _ in a["vs"]:
                         it = gen_stream(rng, pool, allow_none=True)
+                        if items and rng.random() < 0.35:
+                            it = dict(rng.choice(items))  # the same seed / generator again
                         items.append(it)
                     stream = {"k": "mixed", "items": items}
                 steps.append({"op": "call", "entry": entry, "a": a, "stream": stream})
@@ -625,7 +627,7 @@ def generate_record(seed, tier, opts):
 
 
 def gen_malformed(rng, pool):
-    kind = rng.choice(["non_increasing", "too_long", "out_of_range", "negative_measurement_num", "neg_prob", "bad_sum", "len_mismatch", "exp_neg_n", "exp_nonint_n"])
+    kind = rng.choice(["non_increasing", "too_long", "too_long_middle", "too_long_first", "equal_sizes", "out_of_range", "out_of_range_late", "negative_measurement_num", "neg_prob", "bad_sum", "len_mismatch", "exp_neg_n", "exp_nonint_n"])
     return {"op": "malformed", "kind": kind, "salt": rng.randrange(1000)}
 
 
@@ -813,6 +815,21 @@ class Run:
             # left where it was would make the next identical request return the same output with certainty
             if gens0[spec["i"]] == gens1[spec["i"]] and collision_bound(shape) < 0.5:
                 raise Violation("R2_shared_generator", f"{entry}: the shared generator did not advance", {"step": idx, "entry": entry, "args": a}, dict(sig, state="not_advanced"))
+        # ---- documented decomposition: the dataset is a list of data generated by generate_data_from_prob_dist, so an entry
+        # given its own integer seed is a function of that seed alone (not of its neighbours in the list)
+        if entry == "gen_dataset" and k in ("int", "mixed"):
+            seeds = stream_live if k == "int" else [it["s"] if it["k"] == "int" else None for it in spec["items"]]
+            for j, sd in enumerate(seeds):
+                if not isinstance(sd, int):
+                    continue
+                self.bump("oracle_checks", "R1_dataset_entry_alone")
+                np.random.seed(PRISTINE_SEED)
+                try:
+                    alone = dg.generate_data_from_prob_dist(self.world.vectors[a["vs"][j]].copy(), a["ns"][j], sd)
+                finally:
+                    np.random.set_state(np1)
+                if list(alone) != list(out[j]):
+                    raise Violation("R1_seed_function", f"gen_dataset: entry {j} (seed {sd}) differs from generate_data_from_prob_dist with the same seed alone", {"step": idx, "args": a, "stream": spec, "entry_index": j}, dict(sig, how="dataset_entry_alone"))
         # ---- V2 accumulation (independent streams only)
         if k == "gen" or (k == "int" and self._first_use(entry, spec, a)):
             self.accumulate(shape, out)
@@ -1031,6 +1048,14 @@ class Run:
                 return dg.calc_empi_dist_sequence(2, data, [5 + st["salt"] % 5, 5])
             if kind == "too_long":
                 return dg.calc_empi_dist_sequence(2, data, [5, 21 + st["salt"] % 3])
+            if kind == "too_long_middle":
+                return dg.calc_empi_dist_sequence(2, data, [10, 25 + st["salt"] % 3, 20])
+            if kind == "too_long_first":
+                return dg.calc_empi_dists_sequence([2, 2], [data, data], [[5, 10], [21, 22]])
+            if kind == "equal_sizes":
+                return dg.calc_empi_dist_sequence(2, data, [5, 7, 7])
+            if kind == "out_of_range_late":
+                return dg.calc_empi_dist_sequence(2, data[:19] + [5], [10, 20])
             if kind == "out_of_range":
                 return dg.calc_empi_dist_sequence(2, data[:7] + [2] + data[8:], [10])
             if kind == "negative_measurement_num":
